@@ -74,9 +74,9 @@ static cJSON *call_parse(const pvar *v, const char *buf, size_t len, const char 
     cJSON *r = NULL;
     switch (v->entry) {
     case 0: LIB_BEGIN("cJSON_Parse"); r = cJSON_Parse(buf); LIB_END(); break;
-    case 1: LIB_BEGIN("cJSON_ParseWithOpts"); r = cJSON_ParseWithOpts(buf, v->rpe ? end : NULL, v->rnt); LIB_END(); break;
+    case 1: LIB_BEGIN("cJSON_ParseWithOpts"); r = cJSON_ParseWithOpts(buf, v->rpe ? end : NULL, TRU(v->rnt)); LIB_END(); break;
     case 2: LIB_BEGIN("cJSON_ParseWithLength"); r = cJSON_ParseWithLength(buf, len); LIB_END(); break;
-    default: LIB_BEGIN("cJSON_ParseWithLengthOpts"); r = cJSON_ParseWithLengthOpts(buf, len, v->rpe ? end : NULL, v->rnt); LIB_END(); break;
+    default: LIB_BEGIN("cJSON_ParseWithLengthOpts"); r = cJSON_ParseWithLengthOpts(buf, len, v->rpe ? end : NULL, TRU(v->rnt)); LIB_END(); break;
     }
     return r;
 }
@@ -360,7 +360,7 @@ void op_prbat(toks *t)
         for (fmt = 0; fmt < 2; fmt++) {
             cJSON *r2;
             char why[160];
-            LIB_BEGIN("cJSON_ParseWithOpts"); r2 = cJSON_ParseWithOpts(txt[fmt], NULL, 1); LIB_END();
+            LIB_BEGIN("cJSON_ParseWithOpts"); r2 = cJSON_ParseWithOpts(txt[fmt], NULL, TRU(1)); LIB_END();
             if (!r2) { cjv_violation("roundtrip/reparse-null", "fmt=%d: printed text does not parse back", fmt); continue; }
             if (wf_check(r2, WF_ROOT, "reparse") == 0) {
                 char *u2, *f2;
@@ -425,7 +425,7 @@ void op_minify(toks *t)
             LIB_BEGIN("cJSON_Minify"); cJSON_Minify((char *)buf); LIB_END();
             if (strlen((char *)buf) != outlen || memcmp(buf, first, outlen) != 0) cjv_violation("minify/not-idempotent", "minifying the result changes it again");
             ga_release(&g);
-            LIB_BEGIN("cJSON_ParseWithOpts"); r = cJSON_ParseWithOpts((char *)first, NULL, 1); LIB_END();
+            LIB_BEGIN("cJSON_ParseWithOpts"); r = cJSON_ParseWithOpts((char *)first, NULL, TRU(1)); LIB_END();
         }
         bb_reset(&outb); bb_hex(&outb, first, outlen);
         if (r) {
@@ -497,7 +497,7 @@ void op_dupx(toks *t)
     s = tk_item(t->tok[2]);
     mode = (int)tk_int(t->tok[3]);
     bb_reset(&tn_a); tn_dump(&tn_a, s);
-    LIB_BEGIN("cJSON_Duplicate"); d = cJSON_Duplicate(s, 1); LIB_END();
+    LIB_BEGIN("cJSON_Duplicate"); d = cJSON_Duplicate(s, TRU(1)); LIB_END();
     slot[tk_slot(t->tok[1])] = d;
     bb_reset(&tn_b); tn_dump(&tn_b, s);
     if (tn_a.n != tn_b.n || memcmp(tn_a.p, tn_b.p, tn_a.n) != 0) cjv_violation("dup/source-modified", "Duplicate changed its source");
@@ -518,7 +518,7 @@ void op_dupx(toks *t)
             if (b) lib_free(b);
             if (!(mode & 1)) {
                 cJSON_bool e1, e2;
-                LIB_BEGIN("cJSON_Compare"); e1 = cJSON_Compare(s, d, 1); e2 = cJSON_Compare(d, s, 0); LIB_END();
+                LIB_BEGIN("cJSON_Compare"); e1 = cJSON_Compare(s, d, TRU(1)); e2 = cJSON_Compare(d, s, 0); LIB_END();
                 if (!e1 || !e2) cjv_violation("dup/compare-unequal", "copy does not compare equal to its source (%d%d)", e1, e2);
             }
         }
@@ -541,8 +541,8 @@ void op_cmpx(toks *t)
     a = tk_item(t->tok[1]); b = tk_item(t->tok[2]); cs = (int)tk_int(t->tok[3]);
     bb_reset(&tn_a); tn_dump(&tn_a, a); ca = cjv_crc32(tn_a.p, tn_a.n); la = tn_a.n;
     bb_reset(&tn_b); tn_dump(&tn_b, b); cb = cjv_crc32(tn_b.p, tn_b.n); lb = tn_b.n;
-    LIB_BEGIN("cJSON_Compare"); r1 = cJSON_Compare(a, b, cs); LIB_END();
-    LIB_BEGIN("cJSON_Compare"); r2 = cJSON_Compare(b, a, cs); LIB_END();
+    LIB_BEGIN("cJSON_Compare"); r1 = cJSON_Compare(a, b, TRU(cs)); LIB_END();
+    LIB_BEGIN("cJSON_Compare"); r2 = cJSON_Compare(b, a, TRU(cs)); LIB_END();
     bb_reset(&tn_a); tn_dump(&tn_a, a);
     bb_reset(&tn_b); tn_dump(&tn_b, b);
     if (cjv_crc32(tn_a.p, tn_a.n) != ca || tn_a.n != la || cjv_crc32(tn_b.p, tn_b.n) != cb || tn_b.n != lb)
@@ -595,17 +595,21 @@ static void sop_fn(void *p_)
 {
     sop_arg *p = p_;
     switch (p->what) {
-    case 0: LIB_BEGIN("cJSON_Duplicate"); p->r = cJSON_Duplicate(p->a, 1); LIB_END(); break;
+    case 0: LIB_BEGIN("cJSON_Duplicate"); p->r = cJSON_Duplicate(p->a, TRU(1)); LIB_END(); break;
     case 1: LIB_BEGIN("cJSON_Delete"); cJSON_Delete(p->a); LIB_END(); break;
     case 2: p->text = lib_print(p->a, p->flag); break;
-    case 3: LIB_BEGIN("cJSON_Compare"); p->flag = cJSON_Compare(p->a, p->b, 1); LIB_END(); break;
+    case 3: LIB_BEGIN("cJSON_Compare"); p->flag = cJSON_Compare(p->a, p->b, TRU(1)); LIB_END(); break;
+    case 4:
+        if (p->flag) { LIB_BEGIN("cJSONUtils_SortObjectCaseSensitive"); cJSONUtils_SortObjectCaseSensitive(p->a); LIB_END(); }
+        else { LIB_BEGIN("cJSONUtils_SortObject"); cJSONUtils_SortObject(p->a); LIB_END(); }
+        break;
     default: break;
     }
 }
 
 void op_stackop(toks *t)
 {
-    /* stackop dup d s | stackop del s | stackop print s fmt | stackop cmp a b */
+    /* stackop dup d s | stackop del s | stackop print s fmt | stackop cmp a b | stackop sort s cs */
     sop_arg a;
     size_t used;
     const char *w;
@@ -635,5 +639,10 @@ void op_stackop(toks *t)
         a.what = 3; a.a = tk_item(t->tok[2]); a.b = tk_item(t->tok[3]);
         used = stack_run(sop_fn, &a);
         rlog("stackop cmp %d used=%zu", a.flag, used);
+    } else if (!strcmp(w, "sort")) {
+        if (t->n < 4) cjv_fatal("stackop sort s cs");
+        a.what = 4; a.a = tk_item(t->tok[2]); a.flag = (int)tk_int(t->tok[3]);
+        used = stack_run(sop_fn, &a);
+        rlog("stackop sort used=%zu", used);
     } else cjv_fatal("unknown stackop %s", w);
 }
